@@ -42,7 +42,7 @@ theorem s2mStep_frame {c : Cfg} {w w1 : W} {m : Bytes} (h : s2mStep c w m = .ok 
     obtain ⟨kvs, dirty, hw⟩ := s2mStep_shape h hp
     subst hw
     have hne : x ≠ m := fun he => hx ⟨hp, he⟩
-    simp only [findDbi_setKvs, if_neg hne]
+    simp only [findDbi_setKvsMirror, if_neg hne]
 
 theorem s2mStep_names {c : Cfg} {w w1 : W} {m : Bytes} (h : s2mStep c w m = .ok w1) :
     dbiNames w1 = dbiNames w := by
@@ -120,7 +120,7 @@ theorem shadowToMain_nondup {c : Cfg} {w w' : W} (hdist : DistinctNames w.dbis)
   obtain ⟨sd, es, s, hsd, hm, hiu, hw2⟩ := s2mStep_nondup_ok hp hd1 hnd hs
   refine ⟨sd, s.db, by rw [← hsd1]; exact hsd, ?_, ?_, ?_⟩
   · rw [hfin, hw2]
-    simp only [findDbi_setKvs, if_true, hd1, Option.map_some]
+    simp only [findDbi_setKvsMirror, if_true, hd1, Option.map_some]
   · intro p hp'
     obtain ⟨e, _, _, hd', hpr, _⟩ := (keyRel_read hm).mem' p hp'
     exact ⟨hd', e.val, hpr⟩
